@@ -18,11 +18,29 @@ pub fn gains_losses<T: Dom>(h: &[T], n: usize) -> (T, T) {
     }
     (g, l)
 }
+/// input streams built from a few symbolic parameters, so that ties between changes far apart (a change entering the window
+/// against the one leaving it, a flat run after a reversal) are comparison branches even at windows of 10 and more
+#[derive(Clone, Copy, Debug, PartialEq)]
+pub enum Shape { Free, Alternating, Cycle3, Free3ThenFlat, FlatThenFree3 }
+thread_local! { static SHAPE: std::cell::Cell<(Shape, usize)> = const { std::cell::Cell::new((Shape::Free, 0)) }; }
+fn inp<T: Dom>(t: usize) -> T {
+    let (sh, k) = SHAPE.with(|s| s.get());
+    match sh {
+        Shape::Free => T::input(&format!("x{t}")),
+        Shape::Alternating => T::input(if t % 2 == 0 { "a" } else { "b" }),
+        Shape::Cycle3 => T::input(["a", "b", "c"][t % 3]),
+        Shape::Free3ThenFlat => if t < 3 { T::input(&format!("x{t}")) } else { T::input("x2") },
+        Shape::FlatThenFree3 => if t + 3 < k { T::input("c") } else { T::input(&format!("x{t}")) },
+    }
+}
+fn shaped(sh: Shape, k: usize, f: impl FnOnce()) { SHAPE.with(|s| s.set((sh, k))); f(); SHAPE.with(|s| s.set((Shape::Free, 0))); }
+fn rsi_def_s<T: Dom>(n: usize, k: usize, sh: Shape) { shaped(sh, k, || rsi_def::<T>(n, k)) }
+fn myrsi_def_s<T: Dom>(n: usize, k: usize, sh: Shape) { shaped(sh, k, || myrsi_def::<T>(n, k)) }
 fn rsi_def<T: Dom>(n: usize, k: usize) {
     let mut v = Rsi::new(Echo::new(), n);
     let mut h: Vec<T> = vec![];
     for t in 0..k {
-        let x = T::input(&format!("x{t}"));
+        let x = inp::<T>(t);
         h.push(x);
         v.update(x);
         let (g, l) = gains_losses(&h, n);
@@ -41,7 +59,7 @@ fn myrsi_def<T: Dom>(n: usize, k: usize) {
     let mut h: Vec<T> = vec![];
     let mut held = T::zero();
     for t in 0..k {
-        let x = T::input(&format!("x{t}"));
+        let x = inp::<T>(t);
         h.push(x);
         v.update(x);
         let (g, l) = gains_losses(&h, n);
@@ -61,7 +79,7 @@ fn monotone_runs<T: Dom>(n: usize, k: usize, rising: bool) {
     let mut m = MyRSI::new(Echo::new(), n);
     let mut h: Vec<T> = vec![];
     for t in 0..k {
-        let x = T::input(&format!("x{t}"));
+        let x = inp::<T>(t);
         h.push(x);
         r.update(x);
         m.update(x);
@@ -82,7 +100,7 @@ fn negation<T: Dom>(n: usize, k: usize) {
     let (mut m, mut mn) = (MyRSI::new(Echo::new(), n), MyRSI::new(Echo::new(), n));
     let mut h: Vec<T> = vec![];
     for t in 0..k {
-        let x = T::input(&format!("x{t}"));
+        let x = inp::<T>(t);
         h.push(x);
         r.update(x); rn.update(-x); m.update(x); mn.update(-x);
         let lo = h.len().saturating_sub(n + 1);
@@ -113,12 +131,22 @@ pub fn units(tier: Tier, seed: u64) -> Vec<Unit> {
         if n <= 16 { u.push(unit!(format!("C05/negation/N={n}/k={k}/sample-path"), negation(n, k.min(n + 12)))); }
     }
     for (i, x) in u.iter_mut().enumerate().skip(first) { x.concolic = Some(seed * 31 + 1 + (i as u64 % 2)); x.budget_s = 60.0; x.max_decisions = 60000; }
+    // windows of 10 and more, fully symbolic shaped streams (all comparison outcomes of the few parameters)
+    let first = u.len();
+    for &n in &(if tier == Tier::Quick { vec![10usize, 11] } else { vec![7usize, 10, 11, 13, 16] }) {
+        let k = n + 8;
+        for sh in [Shape::Alternating, Shape::Cycle3, Shape::Free3ThenFlat, Shape::FlatThenFree3] {
+            u.push(unit!(format!("C05/Rsi-definition/N={n}/k={k}/{sh:?}"), rsi_def_s(n, k, sh)));
+            u.push(unit!(format!("C05/MyRSI-definition/N={n}/k={k}/{sh:?}"), myrsi_def_s(n, k, sh)));
+        }
+    }
+    for x in u.iter_mut().skip(first) { x.budget_s = if tier == Tier::Quick { 30.0 } else { 300.0 }; x.max_decisions = 60000; x.path_cap = 5000; }
     u
 }
 pub fn meta() -> Meta {
     Meta {
         functions: vec!["Rsi::{new,update,last}", "MyRSI::{new,update,last}", "Echo::{update,last}"],
-        bounds: "N in {1,2,3} (quick; corollaries to 2) / {1..5} (thorough; corollaries to 4); k = 2N+3; inputs unconstrained reals; all comparison outcomes (ties are the else-branch of `change > 0`); in addition (N,k) in {(8,20),(16,36),(2,40),(3,60)} (quick) / up to (32,68),(5,100) (thorough) along the comparison path of a pseudo-random sample input",
+        bounds: "N in {1,2,3} (quick; corollaries to 2) / {1..5} (thorough; corollaries to 4); k = 2N+3; inputs unconstrained reals; all comparison outcomes (ties are the else-branch of `change > 0`); in addition (N,k) in {(8,20),(16,36),(2,40),(3,60)} (quick) / up to (32,68),(5,100) (thorough) along the comparison path of a pseudo-random sample input; and N in {10,11} (quick) / {7,10,11,13,16} on fully symbolic shaped streams (alternating a,b; period-3 a,b,c; three free values then flat; flat then three free values), all comparison outcomes",
         outside: vec!["N > 5, longer streams", "f64 rounding residue of the running sums (that is C16, not claimed)"],
         assumptions: vec![],
     }
